@@ -176,7 +176,7 @@ theorem chunkLoop_aliens (as : List Alien) (hv : ∀ a ∈ as, a.Valid) (k L : N
       simp only [List.map_cons, List.flatten_cons, Alien.bytes, chunk, List.append_assoc, chunkLoop,
         readN4' a.typ _ h4, readN4' (be32 a.data.length) _ (be32_len _), bind, Except.bind, pure, Except.pure,
         hne, if_false]
-      simp only [be32, be32_dec' _ hlen, hlt, hdrop, if_false]
+      simp only [be32, lenOf4, be32_dec' _ hlen, hlt, hdrop, if_false]
       simpa [List.append_assoc, be32] using ih'
 
 theorem readLoop_gchunk (f n k rr L : Nat) (T : List Track) (as : List Alien) (hv : ∀ a ∈ as, a.Valid) (bs : Bytes) :
@@ -298,7 +298,7 @@ theorem readFrom_serialize (g : GFile) (h : g.Valid) : readFrom (serialize g) = 
   have e2 : g.groups.length / 256 % 256 * 256 + g.groups.length % 256 = g.groups.length := be16_dec _ h.count
   have e3 : ¬ (2 < g.format) := by have := h.fmt; omega
   simp only [serialize, MThd, be32, be16, hab, List.cons_append, List.nil_append,
-    List.append_assoc, readFrom, readN4, readN2, e1, e2, hp, ne_eq, not_true_eq_false, if_false, gt_iff_lt, e3, hl]
+    List.append_assoc, readFrom, readN4, readN2, val16, tfOf2, e1, e2, hp, ne_eq, not_true_eq_false, if_false, gt_iff_lt, e3, hl]
   simp [RState.missing, meaning]
 
 end Midi.Gram
